@@ -212,3 +212,15 @@ Definition hcase_eqb (vr : variant) (chems : list chem) (cops : list cop) (cop_e
       && forallb (fun pc => mcache_eqb (mc_get (smc s) (fst pc)) (snd pc)) exp_mc
       && list_eqb vapproxb (hsp h) exp_sps
   end.
+
+(* ------------------------------------------------------------------ the repaired configuration calls (pending_fixes C10_4):
+   set_alias / define_group start with _clear_index_caches(): chemicals._index_cache and every MaterialIndexer._index_caches
+   entry of this chemicals object are emptied in place.  [clr] follows the source: true = repaired tree *)
+Definition clear_caches (s : state) : state := mkst [] [] (sixs s).
+
+Definition hstepc (clr : bool) (vr : variant) (h : hstate) (o : hop) : hstate * hobs :=
+  match o with
+  | HCfg o => let (c', e) := cstep (hcf h) o in
+              (mkhs c' (if clr then clear_caches (hst h) else hst h) (hsp h), HC e)
+  | _ => hstep vr h o
+  end.
